@@ -32,9 +32,13 @@ UNIVERSE = [
     ('/a/', NOJSON, 'regex'), ('/^ab/', NOJSON, 'regex'), ('/b$/', NOJSON, 'regex'),
     ('r[1,2]', NOJSON, 'range'), ('r(1,2)', NOJSON, 'range'), ('r[1,2)', NOJSON, 'range'), ('r(1,2]', NOJSON, 'range'),
     ('r[0.5,2.5]', NOJSON, 'range'), ('r(0.0,1.5)', NOJSON, 'range'),
+    # degenerate and reversed ranges: equal bounds under every bracket form, lower > upper
+    ('r[1,1]', NOJSON, 'range'), ('r(1,1)', NOJSON, 'range'), ('r[1,1)', NOJSON, 'range'), ('r(1,1]', NOJSON, 'range'),
+    ('r(2.5,2.5)', NOJSON, 'range'), ('r[2.5,2.5]', NOJSON, 'range'), ('r[2,1]', NOJSON, 'range'),
 ]
 QUICK = ['0', '1', '-1', '2', '1.5', '2.5', '0.0', '""', '"a"', '"ab"', '"b"', 'true', 'null', '[]', '[1]', '[1, 2]',
-         '[2, 1]', '{}', '{a: 1}', '{a: 1, b: 2}', '{b: 2, a: 1}', '/^ab/', 'r[1,2)', 'r(1,2]', 'r[0.5,2.5]']
+         '[2, 1]', '{}', '{a: 1}', '{a: 1, b: 2}', '{b: 2, a: 1}', '/^ab/', 'r[1,2)', 'r(1,2]', 'r[0.5,2.5]',
+         'r(1,1)', 'r[1,1)', 'r[1,1]', 'r(2.5,2.5)']
 # lhs-only document values that cannot be written as Guard literals
 EXTRA_DOCS = [(-2.5, 'float'), (-9223372036854775808, 'int')]
 
